@@ -16,9 +16,9 @@ from xh import gen
 
 PID = "C10"
 # (the last ones return a truthy / falsy NON-bool: a condition holds when its result is true, whatever its type)
-INT_PREDS = ["x > {a}", "x < {a}", "x % 2 == 0", "x == {a}", "x >= {a} and x < {b}", "x % 3 == 1", "x != {a}", "x + {a} > 2 * {b}", "x % 3", "x - {a}"]
+INT_PREDS = ["x > {a}", "x < {a}", "x % 2 == 0", "x == {a}", "x >= {a} and x < {b}", "x % 3 == 1", "x != {a}", "x + {a} > 2 * {b}", "x % 3", "x - {a}", "type(x) is int and x >= {a}", "type(x) is bool or x > {b}"]
 STR_PREDS = ["len(x) > {c}", "x.startswith('a')", "x == 'ab'", "'b' in x", "x.endswith('c')", "len(x) == {c}", "len(x)"]
-OBJ_PREDS = ["x == {a}", "x is None", "isinstance(x, int) and x > {a}", "isinstance(x, str) and len(x) > {c}"]
+OBJ_PREDS = ["x == {a}", "x is None", "isinstance(x, int) and x > {a}", "isinstance(x, str) and len(x) > {c}", "type(x) is bool", "type(x) is float or x == {a}"]
 BOOL_PREDS = ["x", "not x"]
 
 
@@ -120,7 +120,8 @@ def gen_harnesses(tier, seed):
         src = gen.one_position_module(methods, ["", "a", "ab", "abc", [], [1], [1, 2], [1, 2, 3], 0, (1,), ()], checks,
                                       prelude="from ovld import dependent_check\n\n@dependent_check\ndef Shorter(value: object, n):\n    return len(value) < n\n")
         out.append((f"c10_samecond_{i}", src, dict(family="one parametrised condition under two bounds", methods=methods)))
-    from props.c11 import single_value_literal_module, tuple_element_modules
+    from props.c11 import literal_union_modules, single_value_literal_module, tuple_element_modules
+    out.extend((f"c10_{n_}", src_, dict(meta_)) for n_, src_, meta_ in literal_union_modules())
     n_, src_, meta_ = single_value_literal_module()
     out.append((f"c10_{n_}", src_, dict(meta_, family="a single value-dependent value that is not an int / str / float")))
     out.extend((f"c10_{n_}", src_, dict(meta_, family="value-dependent element types of tuple[...]")) for n_, src_, meta_ in tuple_element_modules())
